@@ -26,6 +26,7 @@ func checkC16(c *chk.Ctx) {
 		"R16b a first delta of zero is rejected before a key is built",
 		"R16c subscribers are only notified with a key whose generation succeeded (and, open finding F8b, should only be notified once the batch is committed)",
 		"R16d a subscriber is registered before the current last key is read (no lost wake-up)",
+		"R16h the client's sequence-updates request (like every client request with a shard field) names the shard that was resolved for the partition key (shared with C18)",
 		"R16g a sequence subscriber is registered under an id taken from a monotonic generator, so that a new subscriber can never replace one that is still open",
 		"R16f every upper bound of a sequence lookup (key generation and subscriber's initial read) is built from the maximum of the suffix type (MaxUint64): no generated key can lie above the bound",
 	}
@@ -39,6 +40,7 @@ func checkC16(c *chk.Ctx) {
 	ruleR16d(h)
 	ruleR16f(h)
 	ruleR16g(h)
+	ruleClientRequestsCarryShard(h, "R16h")
 }
 
 func sequenceLookupFns(h *H) []*ssa.Function {
